@@ -188,6 +188,9 @@ func pathCond(c *schema.Ctx, body []ast.Stmt, target ast.Node) (string, bool) {
 			case *ast.IfStmt:
 				fe = fall([]ast.Stmt{el})
 			}
+			if fb == fe {
+				return fb // (C && f) || (!C && f) is f
+			}
 			return or(and(cnd, fb), and(schema.NegGuard(cnd), fe))
 		case *ast.BlockStmt:
 			return fall(s.List)
